@@ -234,7 +234,7 @@ def _episode_return(interp, pol_action, s0, cap):
     truncated state or the step cap."""
     s, c, g, n = s0, 0, 0.0, 0
     while cap is None or n < cap:
-        a = pol_action(s)
+        a = pol_action(s, n)
         s2, c2, r, term, trunc = interp.step(s, c, a)
         g += r
         n += 1
@@ -274,15 +274,25 @@ def oracle_average_reward(ctx: Ctx, case):
     interp = mdp.Interp(spec)
     policy = onpolicy.table_policy(env, spec, case["policy"])
     n, cap, det = case["num_episodes"], case["max_steps"], case["deterministic"]
+    stateful = case.get("qpolicy") is not None
+    if stateful:
+        # a policy whose greedy action depends on its own step counter (Q[s] + w*n): the evaluated episode is only right if
+        # the helper threads the policy state through the episode and restarts it for every episode
+        policy = TableQPolicy(env, spec, case["qpolicy"]["q"], 0.0, w=case["qpolicy"]["w"])
     got = float(_avg(env, policy, jr.key(case["key"]), n, cap, det))
     starts = [i for i in range(spec["nS"]) if spec["I"][i]]
     tags = {"mode": "deterministic" if det else "stochastic", "cap": "none" if cap is None else "scan"}
     if det:
         logits = np.asarray(case["policy"]["logits"], np.float64)
+        if stateful:
+            q, w = np.asarray(case["qpolicy"]["q"], np.float64), np.asarray(case["qpolicy"]["w"], np.float64)
+            act = lambda s, n_: int(np.argmax(q[s] + w * n_))
+        else:
+            act = lambda s, n_: int(np.argmax(logits[s]))
         G = {}
         cut, full = False, False
         for s0 in starts:
-            g, steps, ended = _episode_return(interp, lambda s: int(np.argmax(logits[s])), s0, cap)
+            g, steps, ended = _episode_return(interp, act, s0, cap)
             G[s0] = g
             cut |= not ended
             full |= ended
@@ -292,7 +302,7 @@ def oracle_average_reward(ctx: Ctx, case):
         ok = any(abs(sum(combo) - target) <= 1e-8 * (1 + abs(target)) for combo in itertools.combinations_with_replacement(vals, n))
         ctx.check(ok, "C19/eval/not-the-mean-of-n-episode-returns", tags=tags, observed=got, episode_returns=G, num_episodes=n, max_steps=cap)
         trunc_end = spec["time_limit"] is not None
-        ctx.count(nontrivial=n >= 2 and len(vals) >= 2, classes=["hit_cap"] * cut + ["ended"] * full + [tags["cap"]] + [f"starts={len(starts)}"], key=[case["key"] % 512, n, cap, sorted(G.items())])
+        ctx.count(nontrivial=n >= 2 and len(vals) >= 2, classes=["hit_cap"] * cut + ["ended"] * full + [tags["cap"]] + [f"starts={len(starts)}"] + ["stateful_policy"] * stateful, key=[case["key"] % 512, n, cap, sorted(G.items())])
     else:
         capn = cap if cap is not None else 64
         los, his = zip(*[_bounds(interp, s0, capn) for s0 in starts])
@@ -309,7 +319,7 @@ def oracle_average_reward_spread(ctx: Ctx, case):
     policy = onpolicy.table_policy(env, spec, case["policy"])
     logits = np.asarray(case["policy"]["logits"], np.float64)
     starts = [i for i in range(spec["nS"]) if spec["I"][i]]
-    G = {s0: _episode_return(interp, lambda s: int(np.argmax(logits[s])), s0, case["max_steps"])[0] for s0 in starts}
+    G = {s0: _episode_return(interp, lambda s, n_: int(np.argmax(logits[s])), s0, case["max_steps"])[0] for s0 in starts}
     vals = sorted(set(G.values()))
     n = 4
     seen = set()
@@ -381,9 +391,14 @@ def eval_cases(draw, sizes, tl, det, cap_mode):
         cap = None
     else:
         cap = draw(st.sampled_from([1, 2, 3, 5, 8, 20]))
+    qpolicy = None
+    if det and spec.get("M") is None and draw(st.booleans()):
+        cell = st.integers(-8, 8).map(lambda x: x / 4)  # exact in float32, ties broken by the first index on both sides
+        qpolicy = {"q": [[draw(cell) for _ in range(spec["nA"])] for _ in range(nS)], "w": [draw(cell) for _ in range(spec["nA"])]}
     return {
         "spec": spec,
         "policy": policy_tables(draw, spec),
+        "qpolicy": qpolicy,
         "num_episodes": draw(st.integers(1, 6)),
         "max_steps": cap,
         "deterministic": det,
